@@ -12,10 +12,10 @@ import (
 	"go/token"
 	"io/ioutil"
 	"math"
+	"math/rand"
 	"os"
 	"os/exec"
 	"path/filepath"
-	"math/rand"
 	"sort"
 	"strconv"
 	"strings"
@@ -66,6 +66,13 @@ func prValFromSx(s sx.S) interface{} {
 			out = append(out, prValFromSx(e))
 		}
 		return out
+	case "O": // an object with literal keys
+		out := map[string]interface{}{}
+		for _, e := range l[1:] {
+			kv := sx.List(e)
+			out[sx.Str(kv[0])] = prValFromSx(kv[1])
+		}
+		return out
 	case "o":
 		out := map[string]interface{}{}
 		for _, e := range l[1:] {
@@ -109,6 +116,8 @@ func prString(r *rand.Rand) string {
 	return b.String()
 }
 
+var prCustom = map[int]bool{}
+
 var prFloats = []float64{0, 1, -1, 1.5, -2.25, 0.1, 1e21, 1e-7, 1.0000000000000002, 0.30000000000000004, 123456789.125,
 	9007199254740993, 1.7976931348623157e308, 5e-324, 2.2250738585072014e-308, 100, 1e6, 3.0}
 
@@ -145,6 +154,15 @@ func prConst(r *rand.Rand, t scT, inputs map[int][]scArg, depth int) sx.S {
 		return sx.L("s", sx.Hex(prString(r)))
 	case 3:
 		return sx.L("b", sx.A(r.Intn(2)))
+	}
+	if t.N >= 20 && inputs[t.N] == nil && prCustom[t.N] {
+		// a custom scalar takes any constant: objects with keys that are and are not names
+		keys := []string{"k", "да", "şehir", "a b", "1x", "k-2", "た", "é", "_ok"}
+		out := []sx.S{"O"}
+		for i := 1 + r.Intn(3); i > 0; i-- {
+			out = append(out, sx.L(sx.Hex(keys[r.Intn(len(keys))]), sx.L("i", sx.A(r.Intn(9)))))
+		}
+		return out
 	}
 	if fs, ok := inputs[t.N]; ok && depth < 2 {
 		out := []sx.S{"o"}
@@ -226,10 +244,23 @@ func prDUs(dus []*ggql.DirectiveUse) string {
 			keys = append(keys, k)
 		}
 		sort.Strings(keys)
+		// every argument, defaults filled in from the directive definition for the ones not given
+		// (the root fills them only when the directive was known as the use was read)
+		vals := map[string]interface{}{}
 		for _, k := range keys {
-			if du.Args[k].Value != nil { // a filled-in null default is not printed
-				s += " " + k + "=" + prGo(du.Args[k].Value)
+			vals[k] = du.Args[k].Value
+		}
+		if dd, _ := du.Directive.(*ggql.Directive); dd != nil {
+			for _, a := range dd.VerifArgs() {
+				if _, has := vals[a.N]; !has {
+					vals[a.N] = a.Default
+					keys = append(keys, a.N)
+				}
 			}
+			sort.Strings(keys)
+		}
+		for _, k := range keys {
+			s += " " + k + "=" + prGo(vals[k])
 		}
 		parts = append(parts, s)
 	}
@@ -639,9 +670,13 @@ func c15Gen(r *rand.Rand, tier string) []Case {
 	for i := 0; i < n; i++ {
 		w := scWellFormed(r, 1+r.Intn(3))
 		inputs := map[int][]scArg{}
+		prCustom = map[int]bool{}
 		for _, it := range w {
 			if it.K == kInput {
 				inputs[it.N] = it.Inputs
+			}
+			if it.K == kScalar {
+				prCustom[it.N] = true
 			}
 		}
 		decor := []sx.S{"decor"}
